@@ -885,6 +885,10 @@ func (x *Exec) evalSpecCall2(sc *specCtx, e *ast.CallExpr) Value {
 		need(1)
 		ts := x.flatten(arg(0))
 		return Scalar{Term{"(> " + ts[0].S + " ALLOC0)", SBool}, boolT}
+	case "strsub":
+		need(3)
+		x.sym.declareFun("strsub", []Sort{SStr, SInt, SInt}, SStr)
+		return Scalar{mk(SStr, "strsub", argT(0), argT(1), argT(2)), types.Typ[types.String]}
 	case "ifacekey":
 		need(1)
 		return Scalar{x.keyTerm(sc.st, arg(0)), types.Typ[types.Int]}
